@@ -144,7 +144,7 @@ impl Check for PathProp {
         match self.id {
             "C01" => vec!["path_returned", "start_invalid"],
             "C02" => vec!["path_returned", "second_solve", "resetup", "connect_direct", "connect_via_start_growth", "connect_via_goal_growth"],
-            "C06" => vec!["sealed_runs", "deadline_in_sampler", "deadline_mid_motion_check", "deadline_at_clock_read", "zero_timeout"],
+            "C06" => vec!["sealed_runs", "deadline_in_sampler", "deadline_mid_motion_check", "deadline_in_goal_test", "deadline_at_clock_read", "deadline_in_bfs", "zero_timeout"],
             _ => vec!["path_returned"],
         }
     }
